@@ -353,7 +353,10 @@ def py_returns(fn, effects=None):
         del pending[:]
 
     def block(stmts, env, guards):
-        for st in stmts:
+        for i_st, st in enumerate(stmts):
+            # a name that nothing reads after the statement is a dead temporary: its conditional effect cannot reach the result
+            live = lambda names, _later=stmts[i_st + 1:]: {n for n in names if any(
+                isinstance(x, ast.Name) and x.id == n and isinstance(x.ctx, ast.Load) for s_ in _later for x in ast.walk(s_))}
             if isinstance(st, ast.Assign) and len(st.targets) == 1 and isinstance(st.targets[0], ast.Name):
                 try:
                     env[st.targets[0].id] = py_ir(st.value, env)
@@ -408,14 +411,14 @@ def py_returns(fn, effects=None):
                     cond = None
                 op_ = _merge(env, e1, e2, cond, _assigned([st]), jsast.camel, _hint(st))
                 if not guards:
-                    flush(op_)
+                    flush(live(op_))
             elif isinstance(st, (ast.For, ast.While, ast.Try, ast.With)):
                 inner = [st.body, getattr(st, 'orelse', [])] + [h.body for h in getattr(st, 'handlers', [])] + [getattr(st, 'finalbody', [])]
                 for b in inner:
                     block(b, dict(env), guards + ['?'])
                 op_ = _merge(env, None, None, None, _assigned([st]), jsast.camel, _hint(st))
                 if not guards:
-                    flush(op_)
+                    flush(live(op_))
     params = {a.arg for a in fn.args.args + fn.args.kwonlyargs} - {'self', 'cls'}
 
     def _hint(st):
@@ -573,8 +576,10 @@ def js_returns(fn, effects=None):
             env.pop(name, None)
 
     def block(stmts, env, guards):
-        for st in stmts:
+        for i_st, st in enumerate(stmts):
             t = st['type']
+            live = lambda names, _later=stmts[i_st + 1:]: {n for n in names if any(
+                x['type'] == 'Identifier' and x['name'] == n for s_ in _later for x in jsast.jwalk(s_))}
             if t == 'VariableDeclaration':
                 for d in st['declarations']:
                     if d['id']['type'] == 'Identifier' and d.get('init') is not None:
@@ -616,7 +621,7 @@ def js_returns(fn, effects=None):
                     cond = None
                 op_ = _merge(env, envs['consequent'], envs['alternate'], cond, _js_assigned(st), lambda x: x)
                 if not guards:
-                    flush(op_)
+                    flush(live(op_))
             elif t in ('ForStatement', 'WhileStatement', 'TryStatement', 'ForInStatement', 'ForOfStatement', 'DoWhileStatement'):
                 for key in ('body', 'block', 'handler', 'finalizer'):
                     sub = st.get(key)
@@ -627,7 +632,7 @@ def js_returns(fn, effects=None):
                     block(sub['body'] if sub['type'] == 'BlockStatement' else [sub], dict(env), guards + ['?'])
                 op_ = _merge(env, None, None, None, _js_assigned(st), lambda x: x)
                 if not guards:
-                    flush(op_)
+                    flush(live(op_))
             else:
                 _merge(env, None, None, None, _js_assigned(st), lambda x: x)
     body = fn['body']
